@@ -140,14 +140,15 @@ def manual_impls(shape, trait, name="Rf"):
     return "\n".join(out)
 
 
-def build(name, shape, trait, entry):
+def build(name, shape, trait, entry, co=()):
+    """co: traits requested alongside (the bounds of `trait` do not depend on them)"""
     gs = shape.generics()
     decl = ", ".join(g[1] for g in gs)
     kw, body = shape.body(True)
     _, body_plain = shape.body(False)
-    la = ", ".join(FAMILY[trait])
+    la = ", ".join(list(co) + FAMILY[trait])
     pre = ["#[derive_ex(%s)]" % la] if entry == "attr" else ["#[derive(Ex)]", "#[derive_ex(%s)]" % la]
-    desc = "instantiation trait=%s shape=%s entry=%s" % (trait, shape.label, entry)
+    desc = "instantiation trait=%s shape=%s entry=%s%s" % (trait, shape.label, entry, (" co-derived=" + "+".join(co)) if co else "")
     src = "#![allow(dead_code, unconditional_recursion, unreachable_code, clippy::all)]\n" + e1.HEADER.format(pid=PID, name=name, desc=desc)
     g = "<%s>" % decl if decl else ""
     src += "%s\npub %s X%s %s\n\n" % ("\n".join(pre), kw, g, body)
@@ -170,7 +171,7 @@ def build(name, shape, trait, entry):
             trues.append("B%d" % k)
             k += 1
     src += "pub fn check<S: Src>(_s: &mut S) {\n%s\n}\n\n" % "\n".join(b) + e1.harness()
-    return kani_runner.Program(name, src, "inst|%s|%s|%s" % (trait, shape.label, entry), desc, nontrivial=bool(tparams))
+    return kani_runner.Program(name, src, "inst|%s|%s|%s%s" % (trait, shape.label, entry, ("|co:" + "+".join(co)) if co else ""), desc, nontrivial=bool(tparams))
 
 
 def shapes_for(trait, tier, rnd):
@@ -245,6 +246,12 @@ def programs(tier, rnd, start=0):
         for sh in shapes_for(trait, tier, rnd):
             entry = "derive" if (len(progs) % 7 == 3) else "attr"
             progs.append(build("q%05d" % (start + len(progs)), sh, trait, entry))
+    # the same with other traits requested alongside: Copy / Clone next to the operators, Clone / Debug next to the comparisons (two shapes each)
+    for trait, co in (("Neg", ["Clone", "Copy"]), ("Add", ["Clone", "Copy"]), ("AddAssign", ["Clone", "Copy"]), ("PartialEq", ["Clone", "Debug"]), ("Hash", ["Clone", "Default"]),
+                      ("Clone", ["Debug", "Default"]), ("Debug", ["Clone", "PartialEq"])):
+        for sh in shapes_for(trait, tier, rnd)[:2]:
+            if all(t not in sh.label for t in ("&'a", "*const", "fn(", "dyn")) or "Copy" not in co:
+                progs.append(build("q%05d" % (start + len(progs)), sh, trait, "attr", co=co))
     # the probes themselves: each answers true on a type that implements the trait and false on one that does not
     b = []
     for pr, yes in (("IsClone", "PClone"), ("IsCopy", "PCopy"), ("IsDebug", "PDebug"), ("IsDefault", "PDefault"), ("IsPartialEq", "PPartialEq"), ("IsEq", "PEq"),
